@@ -208,8 +208,8 @@ pub fn one_case(rep: &Report, idx: usize, case: &CCase, inj: &Injection, keep: b
         }
         let obs = ccommon::run_case(&dir, "a", &source, case, inj);
         rep.eval();
-        if obs.exit == proc::Exit::Timeout {
-            rep.inconclusive("watchdog");
+        if obs.exit == proc::Exit::Timeout || obs.exit.hit_cpu_limit() {
+            rep.inconclusive("watchdog / CPU budget of the case exhausted");
             return Ok(());
         }
         if !obs.exit.ok() {
